@@ -122,8 +122,10 @@ def _p1_function(f: Func, res: RuleResult, orig_vars: Set[str], extra_flags: Lis
                         restored = st
             construct = f"{f.qualname}: temporal path {p.describe()[:110]}"
             if count_path:
-                # the result on this path is a count: it must NOT be given the temporal dtype of the values
-                if restored is not None:
+                # the result on this path is a count: it must NOT be given the temporal dtype of the values.  Armed for the
+                # reduction wrapper only: the cumulative wrapper's counting operation (cumcount) is fed the integer codes, never
+                # temporal values, so its unconditional restore is unreachable on a counting path whichever way it is spelt.
+                if restored is not None and f.name == "_group_func_wrap":
                     res.bad(f, restored, f"{f.qualname}: {norm(restored)[:60]} on a counting path",
                             "the result of a counting operation is cast to the temporal dtype of the values: count(<datetime values>) comes "
                             "back as timestamps a few units after the epoch instead of integers", path=p.describe())
